@@ -118,6 +118,10 @@ func runH9Scenario(t *testing.T, vt *vhT, slow string, cause string, units int) 
 		settle()
 		// liveness: the manager lock must be free and (unless closed) the listener must answer
 		n := w.srv.AllocationCount()
+		for i := 0; !virtual && n != 0 && i < 100; i++ { // real time: give late timers a chance under CPU load
+			time.Sleep(unit / 2)
+			n = w.srv.AllocationCount()
+		}
 		alive := true
 		if cause != "close" {
 			c.pc.drain()
@@ -125,6 +129,10 @@ func runH9Scenario(t *testing.T, vt *vhT, slow string, cause string, units int) 
 			c.sendRaw(h.build(stun.BindingRequest, h.tid, nil))
 			settle()
 			alive = len(c.pc.drain()) > 0
+			for i := 0; !virtual && !alive && i < 100; i++ {
+				time.Sleep(unit / 2)
+				alive = len(c.pc.drain()) > 0
+			}
 		}
 		if !alive {
 			vt.Alarm("liveness-lost", "no Binding response after slow %s + %s", slow, cause)
